@@ -159,3 +159,14 @@ VARIANTS = [
       edits=[(H, '\t"github.com/notaryproject/notation-go/internal/slices"\n', '')],
       find='\t\tif ok && !slices.Contains(VerificationPluginHeaders, attrStrKey) {', replace='\t\tif ok && attrStrKey != HeaderVerificationPlugin && attrStrKey != HeaderVerificationPluginMinVersion {'),
 ]
+
+# the standard library's slices.Contains instead of the module's ContainsAny, and a selector predicate on ValidationResult
+STD = [(V, '\t"github.com/notaryproject/notation-go/internal/slices"\n', '\t"github.com/notaryproject/notation-go/internal/slices"\n\tstdslices "slices"\n')]
+VARIANTS += [
+ dict(name='benign-std-contains-for-processed-attributes', file=V, expect='silent',
+      find='\t\tif !slices.ContainsAny(response.ProcessedAttributes, attr.Key) {', replace='\t\tif !stdslices.Contains(response.ProcessedAttributes, attr.Key) {', edits=STD),
+ dict(name='std-contains-inverted', file=V, expect='flagged(critical-attr-accounting/plugin-executed)',
+      find='\t\tif !slices.ContainsAny(response.ProcessedAttributes, attr.Key) {', replace='\t\tif stdslices.Contains(response.ProcessedAttributes, attr.Key) {', edits=STD),
+ dict(name='benign-selector-predicate-on-result', file=V, expect='silent',
+      find='func verifyX509TrustedIdentities(', replace='func isAuthenticityResult(r *notation.ValidationResult) bool {\n\treturn r.Type == trustpolicy.TypeAuthenticity\n}\n\nvar _ = isAuthenticityResult\n\nfunc verifyX509TrustedIdentities('),
+]
